@@ -7,14 +7,17 @@ from core.run import Acc, finish, NCPU
 PID = "C12"
 ALPHABET = ["0", "1", "9", ".", "e", "E", "+", "-", "*", "/", "^", "%", ",", "(", ")", "{", "}", "'", "°",
             "m", "k", "s", "t", "o", "a", "K", "é", "π", "μ", "Ω", "…", " ", "\t", "\n", " ", "　",
-            "_", ":", "\"", "x"]
+            "_", ":", "\"", "x",
+            # typographic look-alikes a tolerant lexer might start to accept: minus sign, multiplication and division signs, superscript
+            # two, micro sign, fullwidth and Arabic-Indic digits, thin space
+            "\u2212", "\u00d7", "\u00f7", "\u00b2", "\u00b5", "\uff11", "\u0661", "\u2009"]
 # symbols with distinct lexer behaviour (one representative per lexer class / continuation role)
 ALPHABET24 = ["0", "9", ".", "e", "+", "-", "*", "/", "^", "%", ",", "(", ")", "{", "}", "°", "m", "t", "o",
               "é", " ", "　", "_", "x"]
 RULE = ("in-process monitor around the real Lexer and Parser::parse_root: lexer stops within len(s) tokens, every token "
         "non-empty, token ends on char boundaries and sum to len(s); the tree's leaves equal the token sequence and tile "
         "[0,len) exactly once in order; every inner node spans exactly its contiguous children. Exhaustive over all strings "
-        "up to the stated length over the 40-symbol alphabet (and 24 class representatives one symbol longer), plus random "
+        "up to the stated length over the 48-symbol alphabet (and 24 class representatives one symbol longer), plus random "
         "longer strings, 30% of them pumped (prefix + pattern^k + middle + closing^k + suffix, patterns of 1-5 symbols or call/number/unit fragments, "
         "up to hundreds of repetitions). Every fourth input is preceded, on the same thread, by str::parse::<Compound>, str::parse::<Rational> "
         "and Parser::parse_unit of the previous input (nothing may leak from one parse into the next). non-trivial = distinct (token-kind sequence, tree shape) classes observed - counted by hash inside the monitor")
@@ -107,7 +110,7 @@ def run(tier, seed):
     # distinct non-trivial = distinct tree-shape classes (hashes) - the monitor counts them
     acc.nontrivial = set(range(shapes))
     return finish(PID, tier, seed, "exploration", acc, RULE, t0,
-                  assumptions=["syntree's node spans and walk order are as documented", "the 40 symbols cover the lexer's character classes (listed in DESIGN.md)"],
+                  assumptions=["syntree's node spans and walk order are as documented", "the 48 symbols cover the lexer's character classes (listed in DESIGN.md)"],
                   extra={"completed_exhaustive_spaces": complete, "alphabet": ALPHABET, "alphabet24": ALPHABET24},
                   exhaustive=True, min_eval=1000)
 
